@@ -1006,8 +1006,9 @@ def write_evidence(pid, tier, seed, prop, runs, violations, undecided, kf_lines,
           "assumptions": prop.get("assumptions", []) + ["machine arithmetic is bit-precise (CBMC), LP64 x86_64 model",
                                                           "build configuration: the CMake-generated headers of the current tree, -DNDEBUG"],
           "wall_s": round(wall, 2), "violations": len(violations)}
-    os.makedirs(os.path.join(VERIF, "evidence"), exist_ok=True)
-    json.dump(ev, open(os.path.join(VERIF, "evidence", pid + ".json"), "w"), indent=1)
+    evdir = os.environ.get("VERIF_EVIDENCE_DIR") or os.path.join(VERIF, "evidence")   # (mutrun points this elsewhere)
+    os.makedirs(evdir, exist_ok=True)
+    json.dump(ev, open(os.path.join(evdir, pid + ".json"), "w"), indent=1)
 
 
 def replay_file(pid, path):
